@@ -73,6 +73,7 @@ let print_obs o =
       Printf.printf "MOVED%s\n" (String.concat "" (List.map (fun z -> " " ^ string_of_int (int_of_z z)) mvd))
   | OAFail (a, u, c) -> Printf.printf "EV AFAIL %d %d %d\n" (i a) (i u) (i c)
   | OThrow -> Printf.printf "THROW\n"
+  | OThreads k -> Printf.printf "THREADS %d 1\n" (n k)
   | OIter r -> Printf.printf "ITER %s\n" (zs r)
   | OCmp r -> Printf.printf "CMP %s\n" (String.concat " " (List.map (fun b -> if b then "1" else "0") r))
   | ONull (s, sz) -> Printf.printf "NULL %d %d\n" (n s) (i sz)
@@ -139,6 +140,9 @@ let parse_op params toks =
   | "ecmpe" :: [a; b] -> OpECmpE (nat a, nat b)
   | "ecmpr" :: [e; s; i] -> OpECmpR (nat e, nat s, z i)
   | "case" :: _ :: tc :: uc :: fc :: rv :: _ :: n :: vals -> OpCase (nat tc, nat uc, nat fc, rv = "1", nat n, List.map z_of_string vals)
+  | ("pagemode" | "protect" | "unprotect") :: _ -> OpNop
+  | "constops" :: [s; t] -> OpConstOps (nat s, nat t)
+  | "threads" :: [s; t; k] -> OpThreads (nat s, nat t, nat k)
   | "cmpvec" :: [a; b] -> OpCmpVec (nat a, nat b)
   | "cmpref" :: [a; i; b; j] -> OpCmpRef (nat a, z i, nat b, z j)
   | "observe" :: [s] -> OpObserve (nat s)
